@@ -15,6 +15,9 @@ pub struct Memo {
 pub const K: usize = 100;
 pub const C: usize = 100;
 pub const UNCACHED_LIMIT: usize = 200_000;
+/// bound on allocated syntax nodes per token (calibrated: the unchanged parser stays below 5 nodes per token)
+pub const KN: usize = 20;
+pub const CN: usize = 100;
 
 pub fn check_text(t: &str, family: &str, st: &mut Stats) -> Vec<Violation> {
     let mut out = Vec::new();
@@ -46,6 +49,13 @@ pub fn check_text(t: &str, family: &str, st: &mut Stats) -> Vec<Violation> {
     st.add("cache_hits", cached.hits as u64);
     st.max("max_reads_per_token_x100", (cached.reads * 100 / n) as u64);
     st.max("max_tokens", cached.tokens as u64);
+    st.max("max_nodes_per_token_x100", (cached.arena * 100 / n) as u64);
+    if cached.arena > KN * n + CN {
+        out.push(Violation::new(
+            "the memoising parser allocated more syntax nodes than the linear bound allows",
+            json!({"signature": "C12 linear-bound-nodes", "nodes": cached.arena, "tokens": n, "bound": KN * n + CN}),
+        ));
+    }
     if cached.reads > K * n + C {
         out.push(Violation::new(
             "the memoising parser read more tokens than the linear bound allows",
@@ -148,6 +158,14 @@ impl Workload for Growth {
             st.inc("growth_pairs");
             st.nontrivial(hash64(&(fam, d)));
             st.sample(|| json!({"family": fam, "d": d, "reads_d": ra, "reads_2d": rb}));
+            let node_ratio_x100 = db.arena * 100 / da.arena.max(1);
+            st.max("max_node_growth_ratio_x100", node_ratio_x100 as u64);
+            if node_ratio_x100 > 250 {
+                out.push(Violation::new(
+                    "allocated syntax nodes grow faster than linearly with nesting depth",
+                    json!({"signature": "C12 nesting-growth-nodes", "family": fam, "d": d, "nodes_d": da.arena, "nodes_2d": db.arena}),
+                ));
+            }
             if ratio_x100 > 250 {
                 out.push(Violation::new(
                     "token reads grow faster than linearly with nesting depth",
